@@ -287,6 +287,10 @@ class CInference(Inference):
                 logger.debug("eta %s", eta)
                 logger.debug("vSums %s", vSums[index])
                 logger.debug("fSums %s", fSums[index])
+            if not fSums[index]:
+                # no world falsifies this conditional: every ranking accepts it and its
+                # impact is unconstrained (a minimum over no sums would be unsatisfiable)
+                continue
             mv, mf = freshVars(index)
             vMin = minima_encoding(mv, vSums[index])
             fMin = minima_encoding(mf, fSums[index])
